@@ -17,12 +17,12 @@ Replay(h, i, d, acc) ==
        IN Replay(h, i + 1, pre \cup C!Writes(h[i]), Append(acc, inter))
 
 \* the model in which the options of a call stay in force: only to NAME an observed difference
-CK == INSTANCE Context WITH Dev <- Known \cup {"TimeLimitKept", "CallOptionsKept"}
+CK == INSTANCE Context WITH Dev <- Known \cup {"TimeLimitKept", "CallOptionsKept", "HandedOutObjectsMemoised"}
 RECURSIVE ReplayOK(_, _, _, _)
 ReplayOK(h, i, d, acc) ==
   IF i > Len(h) THEN acc
   ELSE LET pre == d \ CK!Resets(h[i])
-       IN ReplayOK(h, i + 1, pre \cup CK!Writes(h[i]), Append(acc, (CK!Reads(h[i]) \cap pre \cap CK!OptCells)))
+       IN ReplayOK(h, i + 1, pre \cup CK!Writes(h[i]), Append(acc, (CK!Reads(h[i]) \cap pre \cap (CK!OptCells \cup {"lobjects"}))))
 
 VARIABLE n
 TInit == n = 1 /\ dirty = {} /\ hist = <<>> /\ clean = <<>>
